@@ -33,6 +33,7 @@ ATOM_LB = {S: 1, NJ: 0}                      # known lower bounds of the indepen
 ABS_KEYS = ('absolute_parent_ids', 'parent_ids')
 REL_KEYS = ('in_update_parent_ids',)
 REJECTS = ('HTTPBadRequest', 'ValidationError', 'HTTPUnprocessableEntity')
+BASE = frozenset((REL, S, NJ, P_ABS, P_REL))
 
 Comp = Tuple[str, Lin]                      # (source 'abs' | 'rel', linear form of one element in terms of the source's atom)
 
@@ -119,7 +120,8 @@ class IdFlow:
         self.env: Dict[str, Lin] = dict(env or {})
         self.lists: Dict[str, List[Comp]] = {}
         self.cons: List[Constraint] = []
-        self.undecided: List[str] = []          # rejecting tests that could not be turned into constraints (conditional, disjunctive, opaque)
+        self.undecided: List[Tuple[str, frozenset]] = []   # (message, base atoms concerned): rejecting tests that could not be turned into constraints
+        self.neq: List[Tuple[str, frozenset]] = []         # accepted-path disequalities `a != b` (they carry no bound on their own, but can sharpen one)
         self.sinks_spec = sinks or {}
         self.sinks: List[Sink] = []
         self._fresh = 0
@@ -184,18 +186,55 @@ class IdFlow:
         return None
 
     # -- constraints ------------------------------------------------------------------------------------------------
+    def atoms(self, e: ast.AST) -> frozenset:
+        """the base atoms (submitted job id, parent ids, range columns) the expression may depend on."""
+        out: Set[str] = set()
+        for n in ast.walk(e):
+            if isinstance(n, ast.Name):
+                if n.id in self.lists:
+                    for _, el in self.lists[n.id]:
+                        out |= set(el.symbols()) & BASE
+                elif n.id in self.env:
+                    out |= set(self.env[n.id].symbols()) & BASE
+            key = None
+            if isinstance(n, ast.Subscript) and isinstance(n.value, ast.Name) and n.value.id == self.spec:
+                key = pf.const_str(n.slice)
+            if isinstance(n, ast.Call) and isinstance(n.func, ast.Attribute) and isinstance(n.func.value, ast.Name) and n.func.value.id == self.spec and n.args:
+                key = pf.const_str(n.args[0])
+            if key is None:
+                continue
+            slot = f'{self.spec}[{key!r}]'
+            if slot in self.lists:
+                for _, el in self.lists[slot]:
+                    out |= set(el.symbols()) & BASE
+            elif slot in self.env:
+                out |= set(self.env[slot].symbols()) & BASE
+            elif key in ABS_KEYS:
+                out.add(P_ABS)
+            elif key in REL_KEYS:
+                out.add(P_REL)
+            elif key == 'job_id':
+                out.add(self.rel)
+        return frozenset(out)
+
     def _tracked(self, e: ast.AST) -> bool:
         """does the expression mention an id we reason about?"""
-        for n in ast.walk(e):
-            if isinstance(n, ast.Name) and (n.id in self.lists or (n.id in self.env and not self.env[n.id].is_const())):
-                return True
-            if isinstance(n, ast.Subscript) and isinstance(n.value, ast.Name) and n.value.id == self.spec and \
-                    pf.const_str(n.slice) in ABS_KEYS + REL_KEYS + ('job_id',):
-                return True
-            if isinstance(n, ast.Call) and isinstance(n.func, ast.Attribute) and isinstance(n.func.value, ast.Name) and n.func.value.id == self.spec and n.args and \
-                    pf.const_str(n.args[0]) in ABS_KEYS + REL_KEYS + ('job_id',):
-                return True
-        return False
+        return bool(self.atoms(e))
+
+    def _und(self, msg: str, *exprs: ast.AST) -> None:
+        a: Set[str] = set()
+        for e in exprs:
+            a |= self.atoms(e)
+        if a:
+            self.undecided.append((msg, frozenset(a)))
+
+    def _bounding(self, l: ast.AST, r: ast.AST) -> bool:
+        """can a comparison of l with r bound a base atom in terms of base atoms?  (linear with an unknown symbol: no; not linear: maybe)"""
+        try:
+            d = self.lin(l) - self.lin(r)
+        except AnalysisError:
+            return True
+        return all(x in BASE for x in d.symbols())
 
     def _add_tree(self, t, where: ast.AST, file: str, conj: bool) -> None:
         kind = t[0]
@@ -212,16 +251,20 @@ class IdFlow:
             _, l, oc, r = t
             src = f'{pf.nsrc(l)} {_OPTXT[oc]} {pf.nsrc(r)}'
             if not conj:
-                if self._tracked(l) or self._tracked(r):
-                    self.undecided.append(f'{file}:{getattr(where, "lineno", 0)}: `{src}` only holds as one alternative of a disjunction')
+                if oc is not ast.NotEq and self._bounding(l, r):
+                    self._und(f'{file}:{getattr(where, "lineno", 0)}: `{src}` only holds as one alternative of a disjunction', l, r)
                 return
             try:
                 a, b = self.lin(l), self.lin(r)
             except AnalysisError:
-                if self._tracked(l) or self._tracked(r):
-                    self.undecided.append(f'{file}:{getattr(where, "lineno", 0)}: `{src}` is not linear')
+                self._und(f'{file}:{getattr(where, "lineno", 0)}: `{src}` is not linear', l, r)
                 return
             line = getattr(where, 'lineno', 0)
+            if oc is ast.NotEq:
+                at = self.atoms(l) | self.atoms(r)
+                if at and all(x in BASE for x in (a - b).symbols()):
+                    self.neq.append((f'{file}:{line}: `{src}`', at))
+                return
             if oc is ast.LtE:
                 self.cons.append(Constraint(a - b, src, line, file))
             elif oc is ast.Lt:
@@ -238,8 +281,7 @@ class IdFlow:
             _, target, it, sub = t
             comps = self.plist(it)
             if comps is None or not isinstance(target, ast.Name):
-                if self._tracked(it):
-                    self.undecided.append(f'{file}:{getattr(where, "lineno", 0)}: quantifier over `{pf.nsrc(it)}` not recognised')
+                self._und(f'{file}:{getattr(where, "lineno", 0)}: quantifier over `{pf.nsrc(it)}` not recognised', it)
                 return
             saved = self.env.get(target.id)
             for source, el in comps:
@@ -250,11 +292,9 @@ class IdFlow:
             else:
                 self.env[target.id] = saved
         elif kind == 'exists':
-            if self._tracked(t[2]):
-                self.undecided.append(f'{file}:{getattr(where, "lineno", 0)}: the accepted case only needs SOME element of `{pf.nsrc(t[2])}` to pass')
+            self._und(f'{file}:{getattr(where, "lineno", 0)}: the accepted case only needs SOME element of `{pf.nsrc(t[2])}` to pass', t[2])
         else:
-            if self._tracked(t[1]):
-                self.undecided.append(f'{file}:{getattr(where, "lineno", 0)}: condition `{pf.nsrc(t[1])[:80]}` not recognised')
+            self._und(f'{file}:{getattr(where, "lineno", 0)}: condition `{pf.nsrc(t[1])[:80]}` not recognised', t[1])
 
     def accept_not(self, test: ast.AST, file: str) -> None:
         """the request goes on only when `test` is false."""
@@ -386,11 +426,31 @@ class IdFlow:
             return
         self._conditional(st, file)
 
+    def _test_atoms(self, t) -> frozenset:
+        """base atoms that the accepted side of a test (in negation normal form) could bound."""
+        kind = t[0]
+        out: Set[str] = set()
+        if kind in ('and', 'or'):
+            for k in t[1]:
+                out |= self._test_atoms(k)
+        elif kind == 'cmp':
+            _, l, oc, r = t
+            if oc is not ast.NotEq and self._bounding(l, r):
+                out |= self.atoms(l) | self.atoms(r)
+        elif kind in ('forall', 'exists'):
+            out |= self.atoms(t[2]) | self.atoms(t[3][1] if t[3][0] == 'opaque' else t[2])
+            out |= self._test_atoms(t[3]) if t[3][0] != 'opaque' else set()
+        else:
+            out |= self.atoms(t[1])
+        return frozenset(out)
+
     def _conditional(self, st: ast.stmt, file: str) -> None:
         """a compound statement we do not execute abstractly: forget what it may assign; remember rejecting tests inside it that we did not use."""
         for n in ast.walk(st):
             if isinstance(n, ast.If) and _contains_reject(n) and self._tracked(n.test):
-                self.undecided.append(f'{file}:{n.lineno}: rejecting test `{pf.nsrc(n.test)[:80]}` is not executed on every path')
+                at = self._test_atoms(nnf(n.test, True))
+                if at:
+                    self.undecided.append((f'{file}:{n.lineno}: rejecting test `{pf.nsrc(n.test)[:80]}` is not executed on every path', at))
         if any(isinstance(n, ast.Expr) and isinstance(n.value, ast.Call) and isinstance(n.value.func, ast.Attribute) and n.value.func.attr in ('append', 'extend')
                and isinstance(n.value.func.value, ast.Name) and n.value.func.value.id in self.sinks_spec for n in ast.walk(st)):
             raise AnalysisError(f'{file}:{st.lineno}: rows are added to {sorted(self.sinks_spec)} inside a statement that is not analysed ({type(st).__name__})')
